@@ -162,6 +162,7 @@ class Engine:
         self.obligations = []
         self.float_mode = "real"
         self.float_strict = False
+        self.const_overrides = {}
         self.spec_mode = False
         self.st = None
         self._decisions = None
@@ -714,6 +715,9 @@ class Engine:
                 return mod.functions[name]
             if name in mod.classes:
                 return ClassVal(name)
+            ov = self.const_overrides.get((mod.name, name))
+            if ov is not None:
+                return ov(self)
             if name in mod.consts:
                 return self.eval(mod.consts[name], Frame(None, {}, mod))
             if name in mod.imports:
@@ -751,6 +755,8 @@ class Engine:
         last = parts[-1]
         if last in _EXC_NAMES or last in self.prog.classes:
             return ClassVal(last)
+        if len(parts) > 1 and last[:1].isupper() and parts[0] not in ("auditok",):
+            return ClassVal(last)        # a class of an external module (pathlib.Path, queue.Queue, ...)
         return ModuleVal(dotted)
 
     def e_Attribute(self, e, fr):
